@@ -11,6 +11,9 @@ type C16Case struct {
 	Id   int    `json:"id"`
 	Kind string `json:"kind"`
 	Text string `json:"text"`
+	// for a generated sentence: the same path with canonical spacing (no optional whitespace, one blank around `/`); both
+	// spellings are the same path, so they are accepted alike and parse to the same structure
+	Canon string `json:"canon,omitempty"`
 }
 
 var wsPool = []string{"", " ", "  ", "\t", "\n", "\r", " \r\n ", "\r\t", "\n\n"}
@@ -24,56 +27,64 @@ func (g *G) ws(must bool) string {
 	return w
 }
 
-// sentence renders a random path with random optional whitespace and redundant parentheses
+// sentence renders a random path with random optional whitespace and redundant parentheses; canon is the same path (same
+// parentheses) without optional whitespace
 func (g *G) sentence(depth int, level int) (text string, endsIri bool) {
+	t, _, e := g.sentence2(depth, level)
+	return t, e
+}
+
+func (g *G) sentence2(depth int, level int) (text, canon string, endsIri bool) {
 	// level 0: expression (seq), 1: term (alt), 2: factor
 	switch {
 	case level == 2 || depth <= 0:
 		if depth > 0 && g.coin(0.25) {
-			inner, _ := g.sentence(depth-1, 0)
-			return "(" + g.ws(false) + inner + g.ws(false) + ")", false
+			inner, innerC, _ := g.sentence2(depth-1, 0)
+			return "(" + g.ws(false) + inner + g.ws(false) + ")", "(" + innerC + ")", false
 		}
 		if g.coin(0.1) {
-			return "@type", false
+			return "@type", "@type", false
 		}
 		s := g.pick(iriPool)
 		switch g.n(6) {
 		case 0:
-			s += g.ws(false) + "^"
-			return s, false
+			return s + g.ws(false) + "^", s + "^", false
 		case 1:
-			s += g.ws(false) + "*"
-			return s, false
+			return s + g.ws(false) + "*", s + "*", false
 		}
-		return s, true
+		return s, s, true
 	case level == 1:
 		k := 1 + g.n(3)
-		var parts []string
+		var parts, partsC []string
 		last := false
 		for i := 0; i < k; i++ {
-			p, e := g.sentence(depth-1, 2)
+			p, pc, e := g.sentence2(depth-1, 2)
 			if i > 0 {
 				// "|" is not an IRI character: no whitespace needed
 				parts = append(parts, g.ws(false)+"|"+g.ws(false))
+				partsC = append(partsC, "|")
 			}
 			parts = append(parts, p)
+			partsC = append(partsC, pc)
 			last = e
 		}
-		return strings.Join(parts, ""), last
+		return strings.Join(parts, ""), strings.Join(partsC, ""), last
 	default:
 		k := 1 + g.n(3)
-		var sb strings.Builder
+		var sb, sc strings.Builder
 		last := false
 		for i := 0; i < k; i++ {
-			p, e := g.sentence(depth-1, 1)
+			p, pc, e := g.sentence2(depth-1, 1)
 			if i > 0 {
 				// "/" IS an IRI character: after an IRI at least one whitespace is needed
 				sb.WriteString(g.ws(last) + "/" + g.ws(false))
+				sc.WriteString(" / ")
 			}
 			sb.WriteString(p)
+			sc.WriteString(pc)
 			last = e
 		}
-		return sb.String(), last
+		return sb.String(), sc.String(), last
 	}
 }
 
@@ -131,9 +142,10 @@ func genC16(g *G, n int, out io.Writer, exhaustive bool) {
 		}
 	}
 	for i := 0; i < n; i++ {
-		s, _ := g.sentence(1+g.n(3), 0)
+		s, canon, _ := g.sentence2(1+g.n(3), 0)
 		s = g.ws(false) + s + g.ws(false)
-		emit("sentence", s)
+		enc.Encode(C16Case{Op: "c16", Id: id, Kind: "sentence", Text: s, Canon: canon})
+		id++
 		k := 25
 		if exhaustive {
 			k = 0
